@@ -84,6 +84,12 @@ SignCross == /\ pc = "sign" /\ CM = 1
              /\ Step(BlindSignA(1, Other(objs[1].s), 1, << 1 >>, << MA >>))
              /\ pc' = "done"
 
+\* the same commitment octets replayed to a signer of the other suite after they were accepted once
+\* (history: a successful blind_sign on these octets precedes the replay)
+SignCrossAfter == /\ pc = "check" /\ last.op = "BlindSign" /\ CM = 1 /\ objs[SH].kind = "sig"
+                  /\ Step(BlindSignA(1, Other(objs[1].s), 1, << 1 >>, << MA >>))
+                  /\ pc' = "done"
+
 \* ---- blind proofs ---------------------------------------------------------------
 DoGen == /\ pc = "check" /\ objs[SH].kind = "sig" /\ last.op = "BlindSign"
          /\ LET o == objs[SH] IN
@@ -149,15 +155,16 @@ AfterTamperProof == /\ pc = "tproof"
                     /\ pc' = "done"
 
 \* ---- blind proofs assembled from public data (the attacker has no signature at all) ------------
-PtA == {"id", "zBv", "other"}
-PtB == {"id", "xD", "other"}
+PtA == {"id", "zBv", "other", "lo"}
+PtB == {"id", "xD", "other", "lo"}
 PtD == {"id", "Bv", "yBv"}
 \* targets: (L, disclosed pairs over the slots 0 .. L-1 | L (blind factor) | L+1 ..), U hidden
 BTargets == { [L |-> 0, dp |-> << >>, U |-> 1], [L |-> 1, dp |-> << << 0, MA >> >>, U |-> 1],
               [L |-> 1, dp |-> << << 0, MA >>, << 2, MB >> >>, U |-> 1], [L |-> 0, dp |-> << << 1, MB >> >>, U |-> 2] }
 DoCraftB == /\ pc = "commit"
             /\ \E s \in Suites, t \in BTargets, a \in PtA, b \in PtB, d \in PtD :
-                  Step(Craft(1, s, "blind", << 1 >>, << 2 >>, t.dp, t.U, t.L, [A |-> a, B |-> b, D |-> d]))
+                 /\ (a = "lo") <=> (b = "lo")
+                 /\ Step(Craft(1, s, "blind", << 1 >>, << 2 >>, t.dp, t.U, t.L, [A |-> a, B |-> b, D |-> d]))
             /\ pc' = "craftedB"
 AfterCraftB ==
   /\ pc = "craftedB"
@@ -173,7 +180,7 @@ AfterCraftB ==
 Next == \/ Setup \/ DoCommit \/ DoSign \/ RT \/ DoGen \/ RTP
         \/ (Mode \in {"adv", "all"} /\ (DoCraftB \/ AfterCraftB))
         \/ (Mode \in {"honest", "all"} /\ (HonestVerify \/ HonestProof))
-        \/ (Mode \in {"adv", "all"} /\ (EditVerify \/ BadCommit \/ SignBad \/ SignCross \/ EditProof \/ TamperProof \/ AfterTamperProof))
+        \/ (Mode \in {"adv", "all"} /\ (EditVerify \/ BadCommit \/ SignBad \/ SignCross \/ SignCrossAfter \/ EditProof \/ TamperProof \/ AfterTamperProof))
 
 MCInit == Init /\ pc = "setup" /\ hist = << >>
 =============================================================================
